@@ -200,6 +200,15 @@ class Transfer(cosmo.Cosmology):
         """
         return bool(val)
 
+    @parameter("switch")
+    def use_splined_growth(self, val):
+        """
+        Whether to use a spline for the growth factor.
+
+        :type: bool
+        """
+        return bool(val)
+
     @parameter("param")
     def z(self, val):
         """
